@@ -6,6 +6,7 @@ and dispatcher restarts — under the environment assumptions A1–A3 written in
 `Step` (see the header of Model/C14_Proto.lean).
 -/
 import ArvVerif.Proofs.C14_L3b
+import ArvVerif.Proofs.C14_L3q
 namespace ArvVerif.C14
 
 /-- **Mutual exclusion.** In every reachable state a container has live crunch-run processes on
@@ -105,5 +106,64 @@ example : ∃ s, Reach s ∧ (7 : Uuid) ∈ s.procs 1 ∧ s.phase = .scheduling 
   have r8 := Reach.step r7 (Step.schedStart _ 1 7 _ rfl rfl rfl (by decide) (by decide) rfl)
   have r9 := Reach.step r8 (Step.startExec _ 1 7 true rfl)
   exact ⟨_, r9, by decide, rfl⟩
+
+/-! ### the queue cache: finished and re-queued containers -/
+
+/-- Once the dispatcher's queue shows a container as Complete or Cancelled it never shows it as
+anything else again (it stays finished or is dropped) … -/
+theorem C14_finished_stays_finished (s t : QState) (hs : QReach s) (h : QReachFrom s t) (c : Uuid)
+    (st : CState) (hc : s.cache c = some st) (hf : st.final = true) :
+    t.cache c = none ∨ ∃ st', t.cache c = some st' ∧ st'.final = true := by
+  have hinv := QInv_reachFrom QInv_init hs
+  have key : QInv t ∧ (s.api c).final = true ∧ (t.api c).final = true ∧
+      (t.cache c = none ∨ ∃ st', t.cache c = some st' ∧ st'.final = true) ∧
+      (t.polling = true → ∀ x, t.snap c = some x → t.dont c = false → x.final = true) := by
+    induction h with
+    | refl =>
+      refine ⟨hinv, hinv.q1 c st hc hf, hinv.q1 c st hc hf, Or.inr ⟨st, hc, hf⟩, ?_⟩
+      intro hp x hx hd
+      exact hinv.q2 c x st hp hx hd hc hf
+    | step hr stp ih =>
+      obtain ⟨i1, i2, i3, i4, i5⟩ := ih
+      have i1' := QInv_step i1 stp
+      refine ⟨i1', i2, ?_, ?_, ?_⟩
+      · cases stp <;> (try simp only [qupd_eq, QState.localUpdate]) <;> grind [final_iff]
+      · cases stp <;> (try simp only [qupd_eq, QState.localUpdate]) <;> grind [final_iff]
+      · cases stp <;> (try simp only [qupd_eq, QState.localUpdate]) <;> grind [final_iff, QInv]
+  exact key.2.2.2.1
+
+/-- **No restart of a finished container.** … hence no later scheduler pass ever starts it. -/
+theorem C14_no_restart_of_finished (s t u : QState) (hs : QReach s) (h : QReachFrom s t) (c : Uuid)
+    (st : CState) (hc : s.cache c = some st) (hf : st.final = true) :
+    ¬ QStep t (.start c) u := by
+  intro hstep
+  cases hstep with
+  | start _ hl =>
+    rcases C14_finished_stays_finished s t hs h c st hc hf with h0 | ⟨st', h1, h2⟩
+    · rw [h0] at hl; cases hl
+    · rw [h1] at hl; cases hl; cases h2
+
+/-- **Started only while Locked.** Whenever `StartContainer(c)` happens the queue shows `c` as
+Locked, and the API record is not Queued: a container that was unlocked / re-queued (by
+`requeue`, the over-quota unlock or `fixStaleLocks`) is started again only after a successful
+`Lock` by this dispatcher, because nothing else moves an API record from Queued to Locked. -/
+theorem C14_start_requires_lock (s t : QState) (hs : QReach s) (c : Uuid) (h : QStep s (.start c) t) :
+    s.cache c = some .locked ∧ s.api c ≠ .queued ∧ s.api c ≠ .other := by
+  cases h with
+  | start _ hl => exact ⟨hl, (QInv_reachFrom QInv_init hs).q3 c hl⟩
+
+/-- … and only the dispatcher's own `Lock` makes a Queued record Locked. -/
+theorem C14_only_lock_locks (s t : QState) (ev : QEv) (c : Uuid) (h : QStep s ev t)
+    (h1 : s.api c = .queued) (h2 : t.api c = .locked) : ev = .lock c := by
+  cases h <;> (try simp only [qupd_eq, QState.localUpdate] at h2) <;> grind
+
+example : ∃ s t, QReach s ∧ QStep s (.start 3) t := by
+  have r0 : QReach QState.init := QReachFrom.refl
+  have r1 := QReachFrom.step r0 (QStep.apiSubmit _ 3 rfl rfl)
+  have r2 := QReachFrom.step r1 (QStep.pollBegin _ rfl)
+  have r3 := QReachFrom.step r2 (QStep.pollRead _ 3 rfl)
+  have r4 := QReachFrom.step r3 (QStep.pollEnd _ rfl)
+  have r5 := QReachFrom.step r4 (QStep.lockOk _ 3 (by decide))
+  exact ⟨_, _, r5, QStep.start _ 3 (by decide)⟩
 
 end ArvVerif.C14
